@@ -910,9 +910,9 @@ M("C04-benign-ignorefile-local", "C04", "src/interrogate/interrogateBuilder.cxx"
 
 MUTANTS.append({"id": "C16-library-key-only-with-edges", "prop": "C16", "benign": False,
   "expect": "R16.3|write_python_table_native|library_name-of-thetype|becomes-a-key",
-  "edits": [("src/interrogate/interrogate_module.cxx", "        std::set<string> &deps = dependencies[library_name];\n", ""),
+  "edits": [("src/interrogate/interrogate_module.cxx", "        std::set<string> &deps = dependencies[library_name];\n\n        // Get the dependencies for this library.", "\n        // Get the dependencies for this library."),
             ("src/interrogate/interrogate_module.cxx", "              deps.insert(std::move(baselib));", "              dependencies[library_name].insert(std::move(baselib));"),
             ("src/interrogate/interrogate_module.cxx", "              deps.insert(std::move(wrappedlib));", "              dependencies[library_name].insert(std::move(wrappedlib));")]})
 M("C16-benign-library-key-emplace", "C16", "src/interrogate/interrogate_module.cxx",
-  "        std::set<string> &deps = dependencies[library_name];\n", "        dependencies.emplace(library_name, std::set<string>());\n        std::set<string> &deps = dependencies.find(library_name)->second;\n",
+  "        std::set<string> &deps = dependencies[library_name];\n\n        // Get the dependencies for this library.", "        dependencies.emplace(library_name, std::set<string>());\n        std::set<string> &deps = dependencies.find(library_name)->second;\n\n        // Get the dependencies for this library.",
   benign=True)
